@@ -49,6 +49,19 @@ def setup():
     src = os.path.realpath(os.path.dirname(os.path.dirname(puresnmp.__file__)))
     if src != os.path.realpath(REPO_SRC):
         raise HarnessError("puresnmp imported from %s, not %s" % (src, REPO_SRC))
+    # The plug-in discovery of the library is guarded by a non-reentrant
+    # threading.Lock.  The harnesses are single-threaded, but clean-up code run
+    # by the garbage collector (a discarded generator or coroutine) may re-enter
+    # discovery while it is in progress and would dead-lock the worker.
+    try:
+        import threading
+
+        import puresnmp.plugins.pluginbase as _pb
+
+        if hasattr(_pb, "DISCOVERY_LOCK"):
+            _pb.DISCOVERY_LOCK = threading.RLock()
+    except ImportError:
+        pass
     for name in ("puresnmp", "puresnmp_plugins"):
         lg = logging.getLogger(name)
         lg.addHandler(LOGCAP)
